@@ -18,6 +18,9 @@ def declare_array(name, length=None, lo=None, hi=None):
     _arr_info[name] = (length, lo, hi)
 
 
+_IMUL = z3.Function('imul', z3.IntSort(), z3.IntSort(), z3.IntSort())
+
+
 class IntEnc:
     """translate ir terms to z3 Int/Bool; collect the axiom instances the terms call for"""
 
@@ -27,6 +30,7 @@ class IntEnc:
         self.bitops = []         # (kind, ir a, ir b, z3 a, z3 b, z3 result)
         self.vars = {}
         self.extra = []
+        self.opaque_mul = False  # products of two non-constant terms as an uninterpreted function plus sign / unit facts
 
     def z(self, t):
         m = self.memo
@@ -57,7 +61,18 @@ class IntEnc:
             self.vars[n.val] = n; return z3.Array(n.val, z3.IntSort(), z3.IntSort())
         if op == 'add': return a[0] + a[1]
         if op == 'sub': return a[0] - a[1]
-        if op == 'mul': return a[0] * a[1]
+        if op == 'mul':
+            if self.opaque_mul and n.args[0].op != 'const' and n.args[1].op != 'const':
+                if not getattr(self, '_imul_axiom', False):
+                    # true facts of integer multiplication, instantiated by trigger on every product occurring in the query
+                    self._imul_axiom = True
+                    x, y = z3.Ints('imul!x imul!y'); p = _IMUL(x, y)
+                    self.extra.append(z3.ForAll([x, y], z3.And(
+                        p == _IMUL(y, x),
+                        z3.Implies(z3.And(x >= 0, y >= 0), p >= 0), z3.Implies(z3.And(x >= 1, y >= 1), z3.And(p >= x, p >= y)),
+                        z3.Implies(x == 0, p == 0), z3.Implies(x == 1, p == y), z3.Implies(x == -1, p == -y)), patterns=[p]))
+                return _IMUL(a[0], a[1])
+            return a[0] * a[1]
         if op == 'neg': return -a[0]
         if op == 'fdiv': return a[0] / a[1]
         if op == 'mod': return a[0] % a[1]
@@ -535,7 +550,7 @@ def prove(hyps, goal, mode='int', timeout_s=10, want_model=True, use_cvc5=True, 
         if mode == 'bv':
             enc = BVEnc(); enc.opaque_mul = opaque_mul; enc.prepare(hyps + [goal])
         else:
-            enc = IntEnc()
+            enc = IntEnc(); enc.opaque_mul = opaque_mul
         zh = [enc.z(h) for h in hyps]
         zg = enc.z(goal)
     except Unbounded as e:
